@@ -192,14 +192,48 @@ func init() {
 		Setup:       validateOracle,
 		Timeout:     minutes(10, 90),
 		Cases: func(tier string, seed int64) []fw.Case {
-			return mkCases(nil, "ops", 64, seed, pick(tier, 100, 2500))
+			l := mkCases(nil, "ops", 64, seed, pick(tier, 100, 2500))
+			return mkCases(l, "deepwalk", 8, seed, pick(tier, 1, 6))
 		},
 		Floors: func(string) map[string]int64 {
-			return map[string]int64{"pops": 5000, "forks": 200, "pop_castle": 10, "pop_ep": 1, "pop_promotion": 10, "pop_capture": 500, "scratch_compares": 1000, "illegal_pushes": 200, "pop_at_root": 10,
+			return map[string]int64{"pops": 5000, "forks": 200, "pop_castle": 10, "pop_ep": 1, "pop_promotion": 10, "pop_capture": 500, "scratch_compares": 1000, "illegal_pushes": 200, "pop_at_root": 10, "deepwalk_pushes": 100000,
 				"ev_repetition_first_after_fork": 5}
 		},
 		Run: func(c *fw.Ctx, cs fw.Case) {
 			r := cs.Rand()
+			if cs.Kind == "deepwalk" {
+				// a long-lived board: a search-like walk of a whole subtree by play and take-back on ONE
+				// board (10^4..2*10^5 distinct positions), then an ordinary session continues on it
+				for i := 0; i < cs.N; i++ {
+					starts := gen.Starts()
+					start := starts[[]int{0, 0, 1, 3, 4, 5, 8}[(cs.Idx+i)%7]]
+					gm := newGameMon(c, gameFlags{history: true, results: true})
+					t0, err := newTrack(0, zt0, start)
+					if err != nil {
+						continue
+					}
+					gm.tracks = []*track{t0}
+					before := adapt.TakeSnap(t0.b)
+					n, depth, last := 0, 1, 1
+					for ; depth <= 6 && n < 150000 && last*40 < 2500000; depth++ {
+						last = deepWalk(t0.b, depth)
+						n += last
+					}
+					c.Count("deepwalk_pushes", n)
+					c.Eval(1)
+					if d := adapt.TakeSnap(t0.b).Diff(before); d != "" {
+						c.Violate("history:deepwalk-restore", "after walking the whole depth-%d subtree by play and take-back (%d moves) the board differs: %s; start %q", depth, n, d, start.FEN())
+					}
+					t0.last = adapt.TakeSnap(t0.b)
+					// first a pure shuffle (both sides undo their moves): the start position recurs at plies 4 and 8
+					pure := gen.Bias{Capture: 0.0001, Check: 1, Promo: 0.0001, Castle: 0.0001, EP: 0.0001, Quiet: 1, PawnMove: 0.0001, Shuffle: 1}
+					gm.continueGame(r, gameOpts{plies: 10, bias: pure, maxTracks: 1})
+					o := gameOpts{plies: 120, bias: gen.Shuffly, popProb: 0.1, forkProb: 0.02, maxTracks: 3, scratch: 0.05}
+					gm.continueGame(r, o)
+					c.Distinct(gm.desc(t0))
+				}
+				return
+			}
 			for i := 0; i < cs.N; i++ {
 				start, bias, plies := gameStart(r, i)
 				if i%3 == 1 {
@@ -218,6 +252,21 @@ func init() {
 			}
 		},
 	})
+}
+
+// deepWalk plays and takes back every line of the given depth on the board (like a search does).
+func deepWalk(b *board.Board, depth int) int {
+	if depth == 0 {
+		return 0
+	}
+	n := 0
+	for _, m := range b.Position().PseudoLegalMoves(b.Turn()) {
+		if b.PushMove(m) {
+			n += 1 + deepWalk(b, depth-1)
+			b.PopMove()
+		}
+	}
+	return n
 }
 
 // sensitivity: positions differing in exactly one component must hash differently (from scratch).
